@@ -54,6 +54,8 @@ func caseFromSx(v sx.V) (Case, error) {
 		return cacheCase{cacheCaseFromSx(v)}, nil
 	case "lim":
 		return limCase{limCaseFromSx(v)}, nil
+	case "limrt":
+		return &limRtCase{plan: rtPlanFromSx(v.N(4))}, nil
 	}
 	return nil, fmt.Errorf("unknown family %q", v.N(0).Str())
 }
@@ -73,6 +75,9 @@ func generate(prop, tier string, rng *Rng) []Case {
 	case "C18":
 		return genC18(tier, rng)
 	case "C16", "C17":
+		if os.Getenv("HX_RT") != "" {
+			return genLimRT(tier, rng)
+		}
 		return genLim(tier, rng, prop)
 	case "C05":
 		return genC05(tier, rng)
